@@ -272,6 +272,13 @@ void EagerSources() {
 }
 
 void RunSources() {
+  // the shared contract heads (inline and on an executor)
+  Sink(yaclib::AsyncSharedContract<int>([](yaclib::SharedPromise<int> p) {
+    std::move(p).Set(1);
+  }));
+  Sink(yaclib::AsyncSharedContract<int>(Exe(), [](yaclib::SharedPromise<int> p) {
+    std::move(p).Set(1);
+  }));
   using E = StopError;
   Signatures<int, E>([] {
     return yaclib::Run(Exe(), [] {
@@ -468,6 +475,12 @@ template <typename V>
 void SharedApi() {
   using E = StopError;
   auto [sf, sp] = yaclib::MakeSharedContract<V, E>();
+  // every public factory of the shared family is instantiated (MakeSharedContractOn did not compile: finding F14)
+  auto [sfo, spo] = yaclib::MakeSharedContractOn<V, E>(Exe());
+  Sink(sfo.Then([](const Result<V, E>&) {
+  }));
+  Sink(std::move(spo));
+  Sink(yaclib::MakeSharedPromise<V, E>());
   auto copy = sf;
   auto moved = std::move(copy);
   Sink(sf.Ready());
